@@ -137,8 +137,9 @@ def make_model(case):
         couts.append(cid)
         frames[g] = cs.local_frame(systems[cid], S.xyz[g])
     S = S.with_frames(frames)
-    if case.get("bmass0"):
-        masses = [((0.0, np.zeros((3, 3)), np.zeros(3)) if k in mat else mm) for k, mm in enumerate(S.masses)]
+    if case.get("bmass_small"):
+        # (a massless boundary with all modes kept makes Mcb singular: outside cbcheck's eigensolution)
+        masses = [((mm[0] * 1e-3, mm[1] * 1e-3, mm[2]) if k in mat else mm) for k, mm in enumerate(S.masses)]
         S = cm.Structure(S.xyz, S.frames, S.edges, masses)
     rng = util.rng_of(case["seed"] + 31)
     gids = [int(t) for t in rng.choice(np.arange(1, 900), size=S.n, replace=False)]
@@ -175,8 +176,8 @@ def pick_bref(case, mdl, order, nb):
     rng = util.rng_of(br["seed"])
     for _ in range(60):
         pos = np.sort(rng.choice(nb, 6, replace=False))
-        if len({int(p) // 6 for p in pos}) < 2:
-            continue
+        if len({int(p) // 6 for p in pos}) < 2 or not np.any(np.diff(pos) != 1):
+            continue      # (a contiguous multi-grid reference needs rb_norm=True by the docstring)
         if np.linalg.cond(rb[pos] * sc) <= 30.0:
             return pos, "mix"
     return np.arange(6), "grid"
@@ -337,8 +338,8 @@ def oracle_cbcheck(case, R):
         R.label("out:" + "BRCS"[mdl["systems"][c].ctype if c else 0])
     if fault:
         R.label("fault:" + fault["kind"])
-    if case.get("bmass0"):
-        R.label("bmass0")
+    if case.get("bmass_small"):
+        R.label("bmass_small")
     R.nontrivial(nbg >= 2 or any(mdl["couts"]) or nq > 0)
     # ---- ground_b: spring straight on a boundary DOF of the CB stiffness
     kappa_b = None
@@ -430,7 +431,9 @@ def oracle_cbcheck(case, R):
     # ---- mass properties
     B = np.ix_(bs_d, bs_d)
     mg = rbg_d.T @ out.m[B] @ rbg_d
-    if moved:
+    ground_i = grounded and fault["kind"] == "ground_i"
+    if moved or ground_i:
+        # (an interior spring changes the constraint modes, hence Mbb: not the rigid mass any more)
         mbb_n = (D[:, None] * Mcb * C[None, :])[np.ix_(bseto, bseto)]
         mg_exp = rbg_exp.T @ mbb_n @ rbg_exp
     else:
@@ -445,12 +448,12 @@ def oracle_cbcheck(case, R):
         fams.append(("eigen", rbe.T @ out.m @ rbe, ms_exp, Nrm))
     for nm, got, want, N_ in fams[1:]:
         e = _mass_err(got, want, mtot, slen * max(1.0, float(np.abs(N_).max())))
-        R.metric("mass6_err", e)
+        R.metric(f"mass6_err_{nm}", e)
         R.check(e <= TOL_MASS, f"mass_{nm}_based", f"err={e:.3g} conv={conv} rb_norm={rb_norm}")
     # cgmass of those: total mass, CG, inertia about CG of the underlying structure
     single = bkind == "grid"
     for nm, got, want, N_ in fams:
-        if nm == "geometry" and moved:
+        if nm == "geometry" and (moved or ground_i):
             continue
         if nm != "geometry" and not (norm_eff or single):
             continue
@@ -467,7 +470,7 @@ def oracle_cbcheck(case, R):
         eo = float(np.abs(mcg[:3, 3:]).max()) / (mtot * slen)
         ep = float(np.abs(np.sort(np.diag(pI)) - np.linalg.eigvalsh(Iw)).max()) / (mtot * slen * slen)
         for q_, v in (("total_mass", em), ("cg", ec), ("inertia", ei), ("coupling", eo), ("principal", ep)):
-            R.metric("massprop_err", v)
+            R.metric(f"massprop_err_{nm}", v)
             R.check(v <= TOL_MASS, f"massprop_{q_}_{nm}", f"err={v:.3g} conv={conv}")
     # ---- rigid-body motion produces no stiffness force
     kmax = float(np.abs(out.k).max()) or 1.0
@@ -535,18 +538,17 @@ def oracle_cbcheck(case, R):
                 R.check(has_fail and not has_pass, "report_refpoint_check_not_FAIL",
                         f"relative Schur complement {rel:.3g}")
     # ---- stiffness-based coordinates (cbcoordchk on the returned stiffness)
-    if not grounded:
+    if not grounded and bkind == "grid":
         co = cb.cbcoordchk(out.k, bs_d if reorder else bs, bs_d[bref_new] if reorder else np.sort(bref),
                            verbose=False, outfile=io.StringIO(), rb_normalizer=None)
-        if bkind == "grid":
-            kref = int(bref_new[0]) // 6
-            Gr, xr = Sn.frames[dgrids[kref]], Sn.xyz[dgrids[kref]]
-            glist = dgrids if reorder else mat
-            wc = np.array([Gr.T @ (Sn.xyz[g] - xr) for g in glist])
-            e = float(np.abs(co.coords - wc).max()) / slen
-            R.metric("cbcoordchk_coords/len", e)
-            R.check(e <= TOL_RB, "cbcoordchk_coords", f"err={e:.3g}")
-            R.check(co.refpoint_chk == "pass", "cbcoordchk_refpoint_chk", co.refpoint_chk)
+        kref = int(bref_new[0]) // 6
+        Gr, xr = Sn.frames[dgrids[kref]], Sn.xyz[dgrids[kref]]
+        glist = dgrids if reorder else mat
+        wc = np.array([Gr.T @ (Sn.xyz[g] - xr) for g in glist])
+        e = float(np.abs(co.coords - wc).max()) / slen
+        R.metric("cbcoordchk_coords/len", e)
+        R.check(e <= TOL_RB, "cbcoordchk_coords", f"err={e:.3g}")
+        R.check(co.refpoint_chk == "pass", "cbcoordchk_refpoint_chk", co.refpoint_chk)
     # ---- fixed-base modes and effective mass
     frq = np.sqrt(red["lam"]) / (2 * math.pi)
     e = util.relerr(np.asarray(out.cb_frq), frq)
@@ -590,11 +592,13 @@ def oracle_cbcheck(case, R):
         r2 = np.diag(rbg_d.T @ (out.m[B] - out.m[Q].T @ out.m[Q]) @ rbg_d)
         R.check(float(np.abs((em.sum(axis=0) + r2 - np.diag(mg)) / mscale).max()) <= TOL_MASS and
                 bool(np.all(r2 >= -TOL_MASS * mscale)), "effmass_residual_bookkeeping", f"{r2.tolist()}")
-        if case.get("bmass0") and nq == len(red["i"]):
-            R.label("effmass_100_percent")
-            e = float(np.abs(ep.sum(axis=0) - 100.0).max()) / 100.0
-            R.metric("effmass_100_err", e)
-            R.check(e <= 1e-7, "effmass_total_not_100_percent", f"{ep.sum(axis=0).tolist()}")
+        if nq:
+            R.check(bool(np.all(ep >= 0)) and bool(np.all(ep.sum(axis=0) <= 100.0 * (1 + 1e-9))),
+                    "effmass_percent_out_of_range", f"{ep.sum(axis=0).tolist()}")
+        if case.get("bmass_small") and nq == len(red["i"]):
+            R.label("effmass_near_100_percent")
+            R.check(bool(np.all(ep.sum(axis=0) >= 95.0)), "effmass_total_not_near_100_percent",
+                    f"{ep.sum(axis=0).tolist()}")
 
 
 # ---------------------------------------------------------------- cbcheck generators
@@ -613,12 +617,14 @@ def cb_cases(draw, variant="valid"):
     elif variant in ("noreorder_split", "noreorder_rbnorm"):
         nbg = draw(st.integers(2, min(3, ngrids - 1)))
     elif variant == "faulty":
-        nbg = draw(st.integers(1, nbg_max))
+        nbg = draw(st.sampled_from([1, 2, 2, 3, 3])) if nbg_max >= 3 else draw(st.integers(1, nbg_max))
     else:
         nbg = draw(st.sampled_from([1, 2, 2, 3, 3])) if nbg_max >= 3 else draw(st.integers(1, nbg_max))
     bgrids = draw(st.lists(st.integers(0, ngrids - 1), min_size=nbg, max_size=nbg, unique=True))
     nint = ngrids - nbg
-    nq = draw(st.sampled_from([None, None, 0, 1, 3, 7, 12, 20]))
+    nq = draw(st.sampled_from([None, None, 1, 2, 3, 7, 12, 20]))
+    if variant == "nomodes":
+        nq = 0
     if variant in ("noreorder_split",):
         nq = draw(st.sampled_from([None, 2, 5, 9]))
     systems = draw(st.lists(st.sampled_from([1, 2, 3]), min_size=0, max_size=2))
@@ -633,7 +639,7 @@ def cb_cases(draw, variant="valid"):
                 rb_norm=draw(st.sampled_from([None, None, True, False])),
                 nff=draw(st.sampled_from([25, 25, 6, 10, 40])), em_filt=draw(st.sampled_from([0, 0, 2.0])),
                 to_file=draw(st.integers(0, 5)) == 0, uset_extra=draw(st.booleans()),
-                bmass0=False)
+                bmass_small=False)
     if case["conv"] == "pair":
         case["conv"] = [draw(st.sampled_from([1000.0, 0.001, 1 / 25.4, 3.0, 0.3])),
                         draw(st.sampled_from([1000.0, 0.001, 0.005710147154735817, 2.0, 0.5]))]
@@ -653,10 +659,10 @@ def cb_cases(draw, variant="valid"):
     case["uref"] = ({"kind": "grid", "k": draw(st.integers(0, nbg - 1))} if uk == "grid" else
                     {"kind": "xyz", "xyz": [draw(_f(-2, 2)), draw(_f(-2, 2)), draw(_f(-2, 2))]} if uk == "xyz"
                     else {"kind": "default"})
-    if variant == "valid":
-        # all the mass on the interior: 100 % effective mass when every mode is kept
-        if nint >= nbg + 1 and draw(st.integers(0, 4)) == 0:
-            case["bmass0"] = True
+    if variant in ("valid", "nomodes"):
+        # nearly all the mass on the interior: ~100 % effective mass when every mode is kept
+        if draw(st.integers(0, 4)) == 0 and variant == "valid":
+            case["bmass_small"] = True
             case["nq"] = draw(st.sampled_from([None, None, 5]))
         # reorder=False: documented for an ascending b-set; (non-contiguous b-set, or rb_norm with a b-set
         # that does not start at 0: parts cbcheck_noreorder_*)
@@ -674,7 +680,7 @@ def cb_cases(draw, variant="valid"):
         case.update(reorder=False, perm=list(range(nbg)), layout="blast", rb_norm=True,
                     nq=draw(st.sampled_from([None, 1, 4, 9])))
     elif variant == "faulty":
-        kind = draw(st.sampled_from(["ground_b", "ground_b", "ground_i", "moved"] if nbg >= 2 else
+        kind = draw(st.sampled_from(["ground_b", "ground_i", "moved", "moved"] if nbg >= 2 else
                                     ["ground_b", "ground_i"]))
         if kind == "moved":
             case["fault"] = {"kind": "moved", "k": draw(st.integers(0, 2)),
@@ -695,3 +701,556 @@ def split_is_contiguous(case):
     nq = ni if case["nq"] is None else min(case["nq"], ni)
     bpos, _ = cm.layout_positions(util.rng_of(case["seed"] + 5), nbg, nq, case["layout"])
     return bool(np.all(np.diff(bpos) == 1)), int(bpos[0])
+
+
+# ---------------------------------------------------------------- cbtf
+
+def build_tf(case):
+    rng = util.rng_of(case["seed"])
+    nb, nq = case["nb"], case["nq"]
+    n = nb + nq
+    w = np.zeros(0)
+    if nq:
+        lf = np.sort(rng.uniform(0.0, 2.0, nq))
+        for j in range(1, nq):
+            lf[j] = max(lf[j], lf[j - 1] + 0.02)          # >= 4.7 % apart
+        w = 2 * math.pi * 10.0 ** lf
+    if case["qform"] == "diag" or nq == 0:
+        iP = np.eye(nq)
+    else:
+        q1, _ = np.linalg.qr(rng.standard_normal((nq, nq)))
+        q2, _ = np.linalg.qr(rng.standard_normal((nq, nq)))
+        iP = q1 @ np.diag(10.0 ** rng.uniform(-0.3, 0.3, nq)) @ q2.T      # inverse modal matrix
+    zeta = rng.choice([0.005, 0.02, 0.1, 0.5], nq) if nq else np.zeros(0)
+    M = np.zeros((n, n))
+    K = np.zeros((n, n), dtype=complex if case["cplx"] else float)
+    Bm = np.zeros((n, n))
+    A = rng.standard_normal((nb, nb))
+    M[:nb, :nb] = A @ A.T + nb * np.eye(nb)
+    M[:nb, nb:] = rng.standard_normal((nb, nq))
+    M[nb:, :nb] = M[:nb, nb:].T
+    M[nb:, nb:] = iP.T @ iP
+    A = rng.standard_normal((nb, nb))
+    wref = float(w.mean()) if nq else 2 * math.pi * 10.0
+    K[:nb, :nb] = (A @ A.T) * wref ** 2
+    K[nb:, nb:] = iP.T @ np.diag(w ** 2) @ iP
+    if case["cplx"]:
+        K *= (1 + 0.04j)
+    damp = case["damp"]
+    if damp != "none" and nq:
+        Bm[nb:, nb:] = iP.T @ np.diag(2 * zeta * w) @ iP
+        if damp in ("modal_full", "full"):
+            X = rng.standard_normal((nq, nq))
+            P = X @ X.T
+            sc = np.sqrt(2 * zeta * w)
+            P = 0.5 * P / np.abs(P).max() * np.outer(sc, sc)
+            Bm[nb:, nb:] += iP.T @ P @ iP
+    if damp == "full":
+        sc = 0.1 * wref
+        A = rng.standard_normal((nb, nb))
+        Bm[:nb, :nb] = (A @ A.T) * sc
+        Bm[:nb, nb:] = rng.standard_normal((nb, nq)) * sc
+        Bm[nb:, :nb] = Bm[:nb, nb:].T if case.get("bsym", True) else rng.standard_normal((nq, nb)) * sc
+    # b-set location
+    if case["bpos"] == "first":
+        bset = np.arange(nb)
+    elif case["bpos"] == "last":
+        bset = nq + np.arange(nb)
+    else:
+        bset = rng.permutation(n)[:nb]
+    qset = np.setdiff1d(np.arange(n), bset)
+    # frequencies
+    freq = []
+    for fs in case["freq"]:
+        if fs["kind"] == "zero":
+            f = 0.0
+        elif fs["kind"] == "near" and nq:
+            f = float(w[fs["mode"] % nq]) / (2 * math.pi) * (1 + fs["off"])
+        else:
+            f = float(fs.get("f", 10.0))
+        if damp == "none" and not case["cplx"]:
+            for wj in w:                                  # stay 1e-3 away from undamped resonances
+                if abs(f * 2 * math.pi / wj - 1) < 1e-3:
+                    f = float(wj) / (2 * math.pi) * 1.002
+        freq.append(f)
+    freq = np.array(freq)
+    nf = len(freq)
+    a = rng.integers(-4, 5, (nb, nf)) + 1j * rng.integers(-4, 5, (nb, nf))
+    if not a.any():
+        a[0, 0] = 1.0
+    if case["a_kind"] == "real":
+        a = a.real.astype(float)
+        if not a.any():
+            a[0, 0] = 1.0
+    if case["a_kind"] in ("vec", "col"):
+        a = a[:, :1] @ np.ones((1, nf))
+    return dict(M=M, K=K, B=Bm, nb=nb, nq=nq, bset=bset, qset=qset, freq=freq, a=a, w=w, iP=iP, zeta=zeta)
+
+
+def tf_reference(T, a=None):
+    nb, nq = T["nb"], T["nq"]
+    n = nb + nq
+    a = T["a"] if a is None else a
+    M, K, B = T["M"], T["K"], T["B"]
+    nf = len(T["freq"])
+    d = np.zeros((n, nf), complex)
+    v = np.zeros((n, nf), complex)
+    acc = np.zeros((n, nf), complex)
+    cnd = np.ones(nf)
+    b = slice(0, nb)
+    q = slice(nb, n)
+    for j, f in enumerate(T["freq"]):
+        W = 2 * math.pi * f
+        acc[b, j] = a[:, j]
+        if W != 0:
+            v[b, j] = a[:, j] / (1j * W)
+            d[b, j] = -a[:, j] / W ** 2
+        if nq:
+            H = -W * W * M[q, q] + 1j * W * B[q, q] + K[q, q]
+            rhs = -(M[q, b] @ acc[b, j] + B[q, b] @ v[b, j])
+            d[q, j] = la.solve(H, rhs)
+            cnd[j] = np.linalg.cond(H)
+            v[q, j] = 1j * W * d[q, j]
+            acc[q, j] = -W * W * d[q, j]
+    frc = M[b] @ acc + B[b] @ v + K[b, b] @ d[b]
+    return d, v, acc, frc, cnd
+
+
+def oracle_cbtf(case, R):
+    from pyyeti import cb
+    T = build_tf(case)
+    nb, nq = T["nb"], T["nq"]
+    n = nb + nq
+    pos = np.concatenate((T["bset"], T["qset"]))
+    M = cm.embed(T["M"], nb, nq, T["bset"], T["qset"])
+    K = cm.embed(T["K"], nb, nq, T["bset"], T["qset"])
+    B = cm.embed(T["B"], nb, nq, T["bset"], T["qset"])
+    freq = T["freq"]
+    nf = len(freq)
+    a_in = T["a"]
+    if case["a_kind"] == "vec":
+        a_arg = a_in[:, 0].copy()
+    elif case["a_kind"] == "col":
+        a_arg = a_in[:, :1].copy()
+    else:
+        a_arg = a_in.copy()
+    R.label(f"damp:{case['damp']}", f"bpos:{case['bpos']}", f"a:{case['a_kind']}", "noq" if nq == 0 else "q",
+            "zeroHz" if 0.0 in freq else "nozero", "cplx" if case["cplx"] else "real", "qform:" + case["qform"],
+            "save" if case["save"] else "nosave")
+    R.nontrivial(nq >= 1 and nf >= 2 and case["damp"] != "none")
+    save = {} if case["save"] else None
+    Mc, Bc, Kc = M.copy(), B.copy(), K.copy()
+    tf = cb.cbtf(M, B, K, a_arg, freq, T["bset"], save)
+    R.check(np.array_equal(M, Mc) and np.array_equal(B, Bc) and np.array_equal(K, Kc), "cbtf_modified_input")
+    ok = R.check(tf.a.shape == (n, nf) and tf.d.shape == (n, nf) and tf.v.shape == (n, nf)
+                 and tf.frc.shape == (nb, nf), "cbtf_shapes",
+                 f"{tf.a.shape} {tf.d.shape} {tf.v.shape} {tf.frc.shape}")
+    if not ok:
+        return
+    R.check(np.array_equal(tf.freq, freq) and np.array_equal(tf.f, freq), "cbtf_freq_vector")
+    R.check(np.array_equal(tf.a[T["bset"]], a_in), "cbtf_boundary_accel_not_input")
+    if case["save"] and nq:
+        R.check("tf" in save, "cbtf_save_not_filled")
+    d, v, acc = tf.d[pos], tf.v[pos], tf.a[pos]          # [b; q] order of the reference
+    dr, vr, ar, fr, cnd = tf_reference(T)
+    kap = float(np.linalg.cond(T["iP"])) ** 2 if nq else 1.0
+    if nq and case["damp"] in ("modal_full", "full"):
+        # SolveUnc goes through the complex eigensolution of the modal state matrix
+        q_ = slice(nb, n)
+        iM = la.inv(T["M"][q_, q_])
+        Ast = np.block([[-iM @ T["B"][q_, q_], -iM @ T["K"][q_, q_]], [np.eye(nq), np.zeros((nq, nq))]])
+        Ds = np.concatenate((np.ones(nq) * float(np.sqrt(np.abs(T["w"]).mean() ** 2)), np.ones(nq)))
+        lam_, V_ = la.eig(Ast / Ds[:, None] * Ds[None, :])
+        V_ = V_ / np.linalg.norm(V_, axis=0)
+        kap *= float(np.linalg.cond(V_))
+    b, q = slice(0, nb), slice(nb, n)
+    Mr, Br, Kr = T["M"], T["B"], T["K"]
+    for j, f in enumerate(freq):
+        W = 2 * math.pi * f
+        # derivative relations
+        if W > 0:
+            sc = max(float(np.abs(acc[:, j]).max()), 1e-300)
+            e = max(float(np.abs(v[:, j] - 1j * W * d[:, j]).max()) * W, float(np.abs(acc[:, j] + W * W * d[:, j]).max())) / sc
+            R.metric("derivative_relations/eps", e / EPS)
+            R.check(e <= 100 * EPS, "cbtf_v_a_d_relations", f"f={f} err={e:.3g}")
+        # full equations of motion: rows q = 0, rows b = frc
+        if nq:
+            terms = np.abs(Mr[q]) @ np.abs(acc[:, j]) + np.abs(Br[q]) @ np.abs(v[:, j]) + np.abs(Kr[q, q]) @ np.abs(d[q, j])
+            res = Mr[q] @ acc[:, j] + Br[q] @ v[:, j] + Kr[q, q] @ d[q, j]
+            e = float(np.abs(res).max()) / max(float(terms.max()), 1e-300)
+            R.metric("eom_q_residual/(eps kap)", e / (EPS * kap))
+            R.check(e <= TOL_TF * EPS * kap, "cbtf_eom_modal_rows",
+                    f"f={f} damp={case['damp']} residual={e:.3g} (terms {terms.max():.3g})")
+        terms = np.abs(Mr[b]) @ np.abs(acc[:, j]) + np.abs(Br[b]) @ np.abs(v[:, j]) + np.abs(Kr[b, b]) @ np.abs(d[b, j])
+        res = Mr[b] @ acc[:, j] + Br[b] @ v[:, j] + Kr[b, b] @ d[b, j] - tf.frc[:, j]
+        e = float(np.abs(res).max()) / max(float(terms.max()), 1e-300)
+        R.metric("eom_b_residual/eps", e / EPS)
+        R.check(e <= 100 * EPS, "cbtf_eom_boundary_rows", f"f={f} damp={case['damp']} residual={e:.3g}")
+        # own dense solve
+        tol = TOL_TF * EPS * cnd[j] * kap
+        for nm, got, ref in (("d", d[:, j], dr[:, j]), ("v", v[:, j], vr[:, j]), ("a", acc[:, j], ar[:, j]),
+                             ("frc", tf.frc[:, j], fr[:, j])):
+            sc = float(np.abs(ref).max())
+            if nm == "frc":
+                sc = max(sc, float(terms.max()))
+            if sc == 0:
+                R.check(not np.abs(got).max() > 0, f"cbtf_{nm}_not_zero", f"f={f}")
+                continue
+            e = float(np.abs(got - ref).max()) / sc
+            R.metric("vs_dense_solve/(eps cond kap)", e / (EPS * cnd[j] * kap))
+            R.check(e <= tol, f"cbtf_{nm}_vs_dense_solve", f"f={f} damp={case['damp']} relerr={e:.3g} tol={tol:.3g}")
+    if case["save"]:
+        # second input through the saved solver == fresh call
+        a2 = np.conj(a_in[::-1]) * 0.5 + 1.0
+        t2 = cb.cbtf(M, B, K, a2, freq, T["bset"], save)
+        t3 = cb.cbtf(M, B, K, a2, freq, T["bset"])
+        e = max(util.relerr(t2.frc, t3.frc), util.relerr(t2.a, t3.a), util.relerr(t2.d, t3.d))
+        R.metric("save_vs_fresh", e)
+        R.check(e <= 1e-12, "cbtf_save_changes_result", f"relerr={e:.3g}")
+
+
+@st.composite
+def tf_cases(draw, noq_order=False):
+    nb = draw(st.sampled_from([1, 2, 3, 6, 6, 7, 12]))
+    nq = draw(st.sampled_from([0, 1, 2, 4, 8, 15]))
+    if noq_order:
+        nb, nq = draw(st.sampled_from([2, 3, 6, 12])), 0
+    damp = draw(st.sampled_from(["none", "modal_diag", "modal_diag", "modal_full", "full", "full"]))
+    nf = draw(st.integers(1, 10))
+    freq = []
+    for _ in range(nf):
+        k = draw(st.sampled_from(["abs", "abs", "near", "zero"]))
+        if k == "zero":
+            freq.append({"kind": "zero"})
+        elif k == "near":
+            off = draw(st.sampled_from([1e-3, -1e-3, 0.01, -0.05, 0.0] if damp != "none" else
+                                       [1e-3, -1e-3, 0.01, -0.05]))
+            freq.append({"kind": "near", "mode": draw(st.integers(0, 20)), "off": off, "f": 10.0})
+        else:
+            freq.append({"kind": "abs", "f": 10.0 ** draw(_f(-1.5, 2.5))})
+    bpos = draw(st.sampled_from(["first", "last", "random"]))
+    if nq == 0:
+        # (no modal DOF and a b-set that is not arange(n): part cbtf_noq_order)
+        bpos = "random" if noq_order else "first"
+    return dict(seed=draw(st.integers(0, 2 ** 31 - 1)), nb=nb, nq=nq, damp=damp,
+                qform=draw(st.sampled_from(["diag", "full"])), cplx=draw(st.integers(0, 3)) == 0,
+                bpos=bpos, freq=freq,
+                a_kind=draw(st.sampled_from(["vec", "col", "mat", "mat", "real"])),
+                save=draw(st.booleans()), bsym=draw(st.booleans()))
+
+
+# ---------------------------------------------------------------- cgmass
+
+def oracle_cgmass(case, R):
+    from pyyeti import cb
+    rng = util.rng_of(case["seed"])
+    scale_l = case["length"]
+    m = float(rng.uniform(0.5, 20.0)) * case["mass"]
+    mxyz = np.array([m, m, m])
+    if case["aniso"]:
+        mxyz = m * rng.uniform(0.5, 2.0, 3)
+    rho = rng.uniform(0.1, 1.0) * scale_l
+    Ic = cm.random_spd(rng, 3, case["ispread"]) * m * rho * rho
+    if case["diag_inertia"]:
+        Ic = np.diag(np.diag(Ic))
+    d = rng.uniform(-1, 1, 3) * scale_l * case["offset"]
+    R.label("aniso" if case["aniso"] else "iso", "offset0" if case["offset"] == 0 else "offset",
+            "diagI" if case["diag_inertia"] else "fullI", "frame" if case["frame"] else "noframe")
+    R.nontrivial(case["offset"] > 0 and not case["diag_inertia"])
+    if case["aniso"]:
+        M6 = cm.mass6_general(mxyz, Ic, d)
+        Iw = Ic
+    else:
+        M6 = cm.mass6(m, Ic, d)
+        Iw = Ic
+        if case["frame"]:
+            # the same body seen from a rotated reference frame: d and I in that frame
+            G = cm.random_rotation(rng)
+            T = np.zeros((6, 6))
+            T[:3, :3] = T[3:, 3:] = G
+            M6 = T.T @ M6 @ T
+            M6 = (M6 + M6.T) / 2
+            d = G.T @ d
+            Iw = G.T @ Ic @ G
+    if case["nonsym"]:
+        M6 = M6.copy()
+        M6[0, 4] += 0.01 * m * scale_l
+        try:
+            cb.cgmass(M6)
+        except ValueError:
+            R.label("nonsym:ValueError")
+            return
+        R.fail("cgmass_accepts_nonsymmetric")
+        return
+    keep = M6.copy()
+    mcg, dxyz = cb.cgmass(M6)
+    out6 = cb.cgmass(M6, all6=True)
+    R.check(np.array_equal(M6, keep), "cgmass_modified_input")
+    R.check(len(out6) == 6 and np.array_equal(out6[0], mcg) and np.array_equal(out6[1], dxyz), "cgmass_all6_differs")
+    _, _, gyr, pgyr, I, pI = out6
+    sm, sl = float(mxyz.max()), max(scale_l, 1e-300)
+    want = np.zeros((6, 6))
+    want[:3, :3] = np.diag(mxyz)
+    want[3:, 3:] = Iw
+    s = np.sqrt(sm) * np.array([1, 1, 1, sl, sl, sl])
+    e = float(np.abs((mcg - want) / np.outer(s, s)).max())
+    R.metric("mcg_err", e)
+    R.check(e <= 1e-11, "cgmass_mcg", f"err={e:.3g} d={d.tolist()}")
+    e = float(np.abs(dxyz - d).max()) / sl
+    R.metric("dxyz_err", e)
+    R.check(e <= 1e-12, "cgmass_dxyz", f"got {dxyz.tolist()} want {d.tolist()}")
+    e = float(np.abs(I - Iw).max()) / (sm * sl * sl)
+    R.metric("I_err", e)
+    R.check(e <= 1e-11, "cgmass_I", f"err={e:.3g}")
+    e = float(np.abs(gyr - np.sqrt(np.diag(Iw) / mxyz)).max()) / sl
+    R.metric("gyr_err", e)
+    R.check(e <= 1e-10, "cgmass_gyr", f"err={e:.3g}")
+    wv = np.linalg.eigvalsh(Iw)
+    gap = float(np.min(np.diff(wv))) / float(wv.max())
+    e = float(np.abs(np.diag(pI) - wv).max()) / (sm * sl * sl)
+    R.metric("princ_I_err", e)
+    R.check(e <= 1e-11 and not (pI - np.diag(np.diag(pI))).any(), "cgmass_princ_I", f"err={e:.3g}")
+    if not case["aniso"]:
+        e = float(np.abs(pgyr - np.sqrt(wv / m)).max()) / sl
+        R.metric("princ_gyr_err", e)
+        R.check(e <= 1e-10, "cgmass_princ_gyr", f"err={e:.3g} gap={gap:.3g}")
+
+
+@st.composite
+def cg_cases(draw):
+    aniso = draw(st.integers(0, 3)) == 0
+    return dict(seed=draw(st.integers(0, 2 ** 31 - 1)), length=draw(st.sampled_from([0.01, 1.0, 40.0, 1000.0])),
+                mass=draw(st.sampled_from([1e-3, 1.0, 1e3])), aniso=aniso,
+                ispread=draw(st.sampled_from([1.5, 10.0, 100.0])), diag_inertia=draw(st.integers(0, 4)) == 0,
+                offset=draw(st.sampled_from([0.0, 0.1, 1.0, 10.0])), frame=draw(st.booleans()),
+                nonsym=draw(st.integers(0, 9)) == 0)
+
+
+# ---------------------------------------------------------------- cbconvert / cbreorder / uset_convert
+
+def oracle_convert(case, R):
+    from pyyeti import cb
+    from pyyeti.nastran import n2p
+    mdl = make_model(case)
+    S, mat = mdl["S"], mdl["mat"]
+    nbg = len(mat)
+    red = cm.cb_reduce(S, mat, case["nq"])
+    nb, nq = red["nb"], red["nq"]
+    n = nb + nq
+    rng = util.rng_of(case["seed"] + 5)
+    bpos, qpos = cm.layout_positions(rng, nbg, nq, case["layout"])
+    order = [int(p) for p in case["perm"]]
+    bseto = np.concatenate([bpos[6 * p:6 * p + 6] for p in order])
+    dgrids = [mat[p] for p in order]
+    M = cm.embed(red["M"], nb, nq, bpos, qpos)
+    K = cm.embed(red["K"], nb, nq, bpos, qpos)
+    zeta = 0.02
+    Bd = np.zeros(n)
+    Bd[qpos] = 2 * zeta * np.sqrt(red["lam"])
+    Bm = np.diag(Bd)
+    # DRM: physical accelerations of a few DOF (local coordinates) from CB accelerations
+    rows = rng.choice(6 * S.n, size=min(8, 6 * S.n), replace=False)
+    drm = np.zeros((len(rows), n))
+    drm[:, np.concatenate((bpos, qpos))] = red["T"][rows]
+    conv = case["conv"]
+    L, mc = _conv_pair(conv)
+    R.label(f"nbg{nbg}", "layout:" + (case["layout"] if nq else "noq"),
+            "conv:" + (conv if isinstance(conv, str) else "pair"),
+            "perm:" + ("id" if order == sorted(order) else "other"))
+    for c in mdl["couts"]:
+        R.label("out:" + "BRCS"[mdl["systems"][c].ctype if c else 0])
+    R.nontrivial(nbg >= 2 or any(mdl["couts"]) or nq > 0)
+    keepM = M.copy()
+    # ---- cbconvert: own dimensional analysis, round trip, documented string forms
+    C, D = cm.unit_vectors(n, bseto, L, mc)
+    M2 = cb.cbconvert(M, bseto, conv)
+    K2 = cb.cbconvert(K, bseto, conv)
+    B2 = cb.cbconvert(Bm, bseto, conv)
+    drm2 = cb.cbconvert(drm, bseto, conv, drm=True)
+    R.check(np.array_equal(M, keepM), "cbconvert_modified_input")
+    for nm, got, want in (("M", M2, D[:, None] * M * C), ("K", K2, D[:, None] * K * C), ("drm", drm2, drm * C)):
+        e = util.relerr(got, want)
+        R.metric("convert_vs_dimensional_analysis", e)
+        R.check(e <= TOL_EXACT, f"cbconvert_{nm}_factors", f"relerr={e:.3g} conv={conv}")
+    if isinstance(conv, str):
+        e = max(util.relerr(cb.cbconvert(M, bseto, list(CONV_TABLE[conv])), M2),
+                abs(CONV_TABLE[conv][0] / cm.CONV[conv][0] - 1), abs(CONV_TABLE[conv][1] / cm.CONV[conv][1] - 1) * 1e-3)
+        R.check(e <= 1e-9, "cbconvert_string_form_not_documented_pair", f"{conv}: {e:.3g}")
+    inv = _inv_conv(conv)
+    for nm, a0, a2, isdrm in (("M", M, M2, False), ("K", K, K2, False), ("drm", drm, drm2, True)):
+        back = cb.cbconvert(a2, bseto, inv, drm=isdrm)
+        e = util.relerr(back, a0)
+        R.metric("convert_roundtrip", e)
+        R.check(e <= TOL_EXACT, f"cbconvert_{nm}_roundtrip", f"relerr={e:.3g} conv={conv}")
+    e = max(util.relerr(M2.T, M2), util.relerr(K2.T, K2))
+    R.metric("convert_symmetry", e)
+    R.check(e <= TOL_EXACT, "cbconvert_symmetry_lost", f"relerr={e:.3g}")
+    Q = np.ix_(qpos, qpos)
+    if nq:
+        e = max(float(np.abs(M2[Q] - np.eye(nq)).max()), util.relerr(K2[Q], K[Q]))
+        R.metric("convert_modal_block", e)
+        R.check(e <= TOL_EXACT, "cbconvert_modal_block_changed", f"err={e:.3g}")
+    # boundary partitions = those of the structure re-built in the new unit system
+    Sn = S.in_units(L, mc)
+    redn = cm.cb_reduce(Sn, dgrids, case["nq"])
+    BB = np.ix_(bseto, bseto)
+    Kn_, Mn_ = Sn.km_local()
+    for nm, got, want, phys in (("Mbb", M2[BB], redn["M"][:nb, :nb], Mn_), ("Kbb", K2[BB], redn["K"][:nb, :nb], Kn_)):
+        sc = np.sqrt(np.diag(phys)[redn["b"]])           # uncondensed diagonal: > 0 even where Kbb = 0
+        e = float(np.abs((got - want) / np.outer(sc, sc)).max())
+        R.metric("convert_vs_rebuilt_model", e)
+        R.check(e <= 1e-8, f"cbconvert_{nm}_vs_model_in_new_units", f"err={e:.3g} conv={conv}")
+    lam0 = la.eigh(K, M, eigvals_only=True)
+    lam2 = la.eigh((K2 + K2.T) / 2, (M2 + M2.T) / 2, eigvals_only=True)
+    e = float(np.abs(lam2 - lam0).max()) / float(np.abs(lam0).max())
+    R.metric("frequencies_changed", e)
+    R.check(e <= 1e-9, "cbconvert_frequencies_changed", f"err={e:.3g}")
+    # ---- uset_convert and mass properties in the new units
+    uset = make_uset(n2p, mdl)                       # matrix order
+    refxyz = [float(t) * case["length"] for t in case["ref"]]
+    u2, ref2 = cb.uset_convert(uset, refxyz, conv)
+    R.check(uset.equals(make_uset(n2p, mdl)), "uset_convert_modified_input")
+    e = float(np.abs(np.asarray(ref2) - np.array(refxyz) * L).max()) / (case["length"] * L)
+    R.check(e <= TOL_EXACT, "uset_convert_ref", f"{ref2}")
+    u3, ref3 = cb.uset_convert(u2, None, inv)
+    R.check(ref3 is None, "uset_convert_ref_none")
+    e = float(np.abs(u3.values - uset.values).max()) / max(1.0, case["length"])
+    R.metric("uset_roundtrip", e)
+    R.check(e <= TOL_EXACT and u3.index.equals(uset.index), "uset_convert_roundtrip", f"err={e:.3g}")
+    for j, g in enumerate(mat):
+        got = u2.iloc[6 * j:6 * j + 6, 1:].values
+        sy = mdl["systems"][mdl["couts"][j]]
+        e = max(float(np.abs(got[0] - Sn.xyz[g]).max()), float(np.abs(got[2] - sy.origin * L).max())) / (case["length"] * L)
+        e = max(e, float(np.abs(got[3:] - sy.T).max()), float(np.abs(got[1] - [sy.cid, sy.ctype, 0]).max()))
+        R.metric("uset_convert_err", e)
+        R.check(e <= TOL_EXACT and np.array_equal(u2["nasset"].values, uset["nasset"].values),
+                "uset_convert_geometry", f"grid {j} err={e:.3g}")
+    P = np.array(refxyz) * L
+    rb_n = Sn.rb_local(P, dgrids)                    # rows in bseto order
+    rb_u = n2p.rbgeom_uset(u2, ref2)                 # rows in matrix order
+    rb_u = np.vstack([rb_u[6 * p:6 * p + 6] for p in order])
+    slen = max(Sn.length_scale(), float(np.abs(Sn.xyz - P).max()))
+    e = float(np.abs(rb_u - rb_n).max()) / max(1.0, slen)
+    R.metric("rb_converted_uset/len", e)
+    R.check(e <= TOL_RB, "uset_convert_rigid_body_modes", f"err={e:.3g}")
+    mtot = Sn.total_mass()
+    M6 = rb_u.T @ M2[BB] @ rb_u
+    e = _mass_err(M6, Sn.rigid_mass(P), mtot, slen)
+    R.metric("mass6_err", e)
+    R.check(e <= TOL_MASS, "converted_mass_matrix", f"err={e:.3g} conv={conv}")
+    mcg, dxyz, _, _, I, _ = cb.cgmass((M6 + M6.T) / 2, all6=True)
+    e1 = abs(mcg[0, 0] - S.total_mass() * mc) / mtot
+    e2 = float(np.abs(dxyz - (S.cg() * L - P)).max()) / slen
+    e3 = float(np.abs(I - S.inertia_cg() * mc * L * L).max()) / (mtot * slen * slen)
+    for nm, e in (("mass", e1), ("cg", e2), ("inertia", e3)):
+        R.metric("massprop_err", e)
+        R.check(e <= TOL_MASS, f"converted_massprop_{nm}", f"err={e:.3g} conv={conv}")
+    # ---- cbreorder: symmetric permutation, DRM columns only, inverse permutation, last
+    qs = np.sort(qpos)
+    pv = np.concatenate((bseto, qs))
+    pvl = np.concatenate((qs, bseto))
+    Mr = cb.cbreorder(M, bseto)
+    Kr = cb.cbreorder(K, bseto)
+    Br = cb.cbreorder(Bm, bseto)
+    dr = cb.cbreorder(drm, bseto, drm=True)
+    R.check(np.array_equal(M, keepM), "cbreorder_modified_input")
+    R.check(np.array_equal(Mr, M[np.ix_(pv, pv)]) and np.array_equal(Kr, K[np.ix_(pv, pv)]), "cbreorder_not_symmetric_permutation")
+    R.check(np.array_equal(dr, drm[:, pv]), "cbreorder_drm_columns")
+    Ml = cb.cbreorder(M, bseto, last=True)
+    dl = cb.cbreorder(drm, bseto, drm=True, last=True)
+    R.check(np.array_equal(Ml, M[np.ix_(pvl, pvl)]) and np.array_equal(dl, drm[:, pvl]), "cbreorder_last")
+    ipv = np.argsort(pv)
+    R.check(np.array_equal(cb.cbreorder(Mr, ipv), M) and np.array_equal(cb.cbreorder(dr, ipv, drm=True), drm),
+            "cbreorder_inverse_permutation")
+    if nq:
+        # b-first <-> b-last are undone by each other
+        back = cb.cbreorder(Ml, nq + np.arange(nb))
+        R.check(np.array_equal(back, Mr), "cbreorder_last_then_first")
+    if drm.shape[0] != n:
+        try:
+            cb.cbreorder(drm, bseto)
+            R.fail("cbreorder_nonsquare_accepted")
+        except ValueError:
+            pass
+    # reorder and convert commute
+    bn = np.arange(nb)
+    e = max(util.relerr(cb.cbconvert(Mr, bn, conv), cb.cbreorder(M2, bseto)),
+            util.relerr(cb.cbconvert(dr, bn, conv, drm=True), cb.cbreorder(drm2, bseto, drm=True)))
+    R.metric("reorder_convert_commute", e)
+    R.check(e <= TOL_EXACT, "cbreorder_cbconvert_do_not_commute", f"relerr={e:.3g}")
+    e = float(np.abs(la.eigh(Kr, Mr, eigvals_only=True) - lam0).max()) / float(np.abs(lam0).max())
+    R.check(e <= 1e-9, "cbreorder_frequencies_changed", f"err={e:.3g}")
+    # ---- recovered responses: base drive in the original model == converted == reordered model
+    w = np.sqrt(red["lam"]) / (2 * math.pi) if nq else np.array([10.0])
+    freq = np.array([0.5 * w[0], w[0] * 0.98, w[min(1, len(w) - 1)] * 1.01, 3.0 * w[-1]])
+    a = (rng.integers(-3, 4, (nb, len(freq))) + 1j * rng.integers(-3, 4, (nb, len(freq)))).astype(complex)
+    a[0, 0] += 1.0
+    if nq == 0 and not np.array_equal(bseto, np.arange(nb)):
+        R.label("response_skipped:noq_unordered_bset")      # see part cbtf_noq_order
+        return
+    tf0 = cb.cbtf(M, Bm, K, a, freq, bseto)
+    y0 = drm @ tf0.a
+    ysc = float(np.abs(y0).max()) or 1.0
+    a_new = a / C[bseto][:, None]                  # x_old = C x_new
+    tf2 = cb.cbtf(M2, B2, K2, a_new, freq, bseto)
+    y2 = drm2 @ tf2.a
+    e = float(np.abs(y2 - y0).max()) / ysc
+    R.metric("response_after_convert", e)
+    R.check(e <= 1e-8, "converted_recovered_response_changed", f"relerr={e:.3g} conv={conv}")
+    fsc = np.abs(tf0.frc).max(axis=1, keepdims=True)
+    fsc[fsc == 0] = 1.0
+    e = float(np.abs((tf2.frc / D[bseto][:, None] - tf0.frc) / fsc).max())
+    R.metric("force_after_convert", e)
+    R.check(e <= 1e-8, "converted_interface_force", f"relerr={e:.3g} conv={conv}")
+    tfr = cb.cbtf(Mr, Br, Kr, a, freq, bn)
+    yr = dr @ tfr.a
+    e = max(float(np.abs(yr - y0).max()) / ysc, float(np.abs((tfr.frc - tf0.frc) / fsc).max()))
+    R.metric("response_after_reorder", e)
+    R.check(e <= 1e-8, "reordered_recovered_response_changed", f"relerr={e:.3g}")
+
+
+@st.composite
+def conv_cases(draw):
+    ngrids = draw(st.integers(3, 8))
+    nbg = draw(st.integers(1, min(3, ngrids - 1)))
+    systems = draw(st.lists(st.sampled_from([1, 2, 3]), min_size=0, max_size=2))
+    conv = draw(st.sampled_from(["m2e", "e2m", "pair", "pair"]))
+    if conv == "pair":
+        conv = [draw(st.sampled_from([1000.0, 0.001, 1 / 25.4, 3.0, 0.3, 1.0])),
+                draw(st.sampled_from([1000.0, 0.001, 0.005710147154735817, 2.0, 0.5]))]
+    return dict(seed=draw(st.integers(0, 2 ** 31 - 1)), ngrids=ngrids, nextra=draw(st.integers(0, 4)),
+                length=draw(st.sampled_from([0.5, 2.0, 10.0, 50.0])), kspread=draw(st.sampled_from([3.0, 30.0, 300.0])),
+                offsets=draw(st.booleans()), f1=draw(st.sampled_from([1.0, 4.0, 20.0])),
+                bgrids=draw(st.lists(st.integers(0, ngrids - 1), min_size=nbg, max_size=nbg, unique=True)),
+                nq=draw(st.sampled_from([None, 0, 2, 6, 12])), systems=systems,
+                cout=[draw(st.integers(0, len(systems))) for _ in range(nbg)],
+                layout=draw(st.sampled_from(["bfirst", "blast", "split"])),
+                perm=draw(st.permutations(list(range(nbg)))), conv=conv,
+                ref=[draw(_f(-2, 2)), draw(_f(-2, 2)), draw(_f(-2, 2))])
+
+
+# ---------------------------------------------------------------- parts
+
+REQUIRED_CLASSES = {"thorough": ["cbcheck:out:C", "cbcheck:out:S", "cbcheck:bref:mix", "cbcheck:perm:swap",
+                                 "cbcheck:conv:m2e", "cbcheck:conv:pair", "cbcheck:noreorder", "cbcheck:n>25",
+                                 "cbcheck:nq:some", "cbcheck:nq:all", "cbcheck:effmass_near_100_percent",
+                                 "cbcheck_faulty:fault:ground_b", "cbcheck_faulty:fault:ground_i",
+                                 "cbcheck_faulty:fault:moved", "cbcheck_faulty:fault_visible",
+                                 "cbcheck_faulty:refpoint_fail_expected", "cbtf:damp:full", "cbtf:zeroHz",
+                                 "cbtf:noq", "cgmass:aniso", "cgmass:nonsym:ValueError"]}
+
+PARTS = [
+    Part("cbcheck", oracle_cbcheck, strategy=lambda: cb_cases("valid"), quick=(8, 150), thorough=(16, 750)),
+    Part("cbcheck_faulty", oracle_cbcheck, strategy=lambda: cb_cases("faulty"), quick=(3, 120), thorough=(8, 450)),
+    Part("cbtf", oracle_cbtf, strategy=tf_cases, quick=(2, 300), thorough=(8, 750)),
+    Part("cgmass", oracle_cgmass, strategy=cg_cases, quick=(1, 500), thorough=(2, 2500)),
+    Part("convert_reorder", oracle_convert, strategy=conv_cases, quick=(2, 150), thorough=(8, 400)),
+    # input classes on which cbcheck is suspected defective (kept apart so they do not mask the rest)
+    Part("cbtf_noq_order", oracle_cbtf, strategy=lambda: tf_cases(noq_order=True), quick=(1, 20), thorough=(1, 80)),
+    Part("cbcheck_nomodes", oracle_cbcheck, strategy=lambda: cb_cases("nomodes"), quick=(1, 15), thorough=(1, 60)),
+    Part("cbcheck_perm3", oracle_cbcheck, strategy=lambda: cb_cases("perm3"), quick=(1, 15), thorough=(1, 60)),
+    Part("cbcheck_noreorder_split", oracle_cbcheck, strategy=lambda: cb_cases("noreorder_split"),
+         quick=(1, 15), thorough=(1, 60)),
+    Part("cbcheck_noreorder_rbnorm", oracle_cbcheck, strategy=lambda: cb_cases("noreorder_rbnorm"),
+         quick=(1, 15), thorough=(1, 60)),
+]
